@@ -3,8 +3,11 @@ package checks
 import (
 	"fmt"
 	"math/rand"
+	"os"
+	"path/filepath"
 	"runtime/debug"
 	"strings"
+	"syscall"
 	"time"
 
 	shared "github.com/aquilax/hranoprovod-cli/v3"
@@ -409,6 +412,46 @@ func runC04(c *core.Ctx) {
 			if sres.Exit != 0 || err != nil || st.Fields["Database records"] != fmt.Sprint(len(b)) {
 				c.Violation("stats|record-count", fmt.Sprintf("exit %d, Database records %q for a file with %d headings (%d distinct)", sres.Exit, st.Fields["Database records"], len(b), len(bb)),
 					caseDoc{Files: map[string]string{"all.yaml": full, "none.yaml": ""}, Args: sargs, Observed: resDoc(sres)})
+			}
+		}
+		// the book through a named pipe whose writer turns up a quarter of a second after the program was started
+		// (the usual order is the other way round): the program waits for it and reads every record
+		if i%40 == 3 {
+			fifo := filepath.Join(srv.Dir, fmt.Sprintf("late%d.fifo", i))
+			os.Remove(fifo)
+			if err := syscall.Mkfifo(fifo, 0o600); err == nil {
+				wrote := make(chan struct{})
+				go func() {
+					defer close(wrote)
+					time.Sleep(250 * time.Millisecond)
+					if w, err := os.OpenFile(fifo, os.O_WRONLY, 0); err == nil {
+						w.WriteString(text)
+						w.Close()
+					}
+				}()
+				fargs := []string{"-d", filepath.Base(fifo), "csv", "database"}
+				fres := run.Exec(c.HR, fargs, run.ExecOpts{Dir: srv.Dir, Timeout: 20 * time.Second})
+				// release a writer that is still blocked in open because the program has gone already
+				for released := false; !released; {
+					select {
+					case <-wrote:
+						released = true
+					case <-time.After(400 * time.Millisecond):
+						if rd, err := os.OpenFile(fifo, os.O_RDONLY|syscall.O_NONBLOCK, 0); err == nil {
+							time.Sleep(50 * time.Millisecond)
+							rd.Close()
+						}
+					}
+				}
+				os.Remove(fifo)
+				c.Eval(1)
+				c.Count("cli_csv_database_from_a_pipe_with_a_late_writer", 1)
+				if fres.TimedOut {
+					c.Inconclusive("late-writer", "watchdog")
+				} else if fres.Out != res.Out || fres.Exit != res.Exit {
+					c.Violation("csv database|late-writer-differs-from-file", fmt.Sprintf("the book through a named pipe whose writer opens it 250 ms after the program started: exit %d and %d bytes; from a file: exit %d and %d bytes", fres.Exit, len(fres.Out), res.Exit, len(res.Out)),
+						caseDoc{Files: map[string]string{"(named pipe)": clip(text, 20000)}, Args: fargs, Note: "the writer opens the pipe 250 ms after the program was started", Expected: resDoc(res), Observed: resDoc(fres)})
+				}
 			}
 		}
 		// one file named twice (as book and as log) reads like two copies of it: each role gets the whole file
